@@ -159,6 +159,24 @@ def run_book(ctx, bi, ncalls, replay=None, source=None):
         ovB = {(s_, *wbspec.rc(a)): wbspec.dec(v) for (s_, a, v) in replay['overridesB']}
     else:
         ovA, ovB = make_overrides(), make_overrides()
+    # epilogue (not in replays, which carry their own schedule): the grid of sheet X, then an override on ANOTHER sheet Y that formulas of X
+    # read, then the grid of X again - late stages of executor A, supplied after the random part of the schedule
+    epilogue = []
+    if not replay and ns > 1:
+        for _ in range(2):
+            x = rng.randrange(ns)
+            cand = []
+            for (ys, yr, yc), v in info['consts'].items():
+                if ys != x and (ys, yr, yc) not in ovA and any(k_[0] == x and titles[ys] in f_ and wbspec.a1(yr, yc) in f_.replace('$', '') for k_, f_ in info['formulas'].items()):
+                    cand.append((ys, yr, yc))
+            if not cand:
+                cand = [k_ for k_ in info['consts'] if k_[0] != x and k_ not in ovA]
+            if cand:
+                key_ = rng.choice(cand)
+                ovA[key_] = rng.choice([books.const(rng), rng.randrange(100, 999), rng.randrange(100, 999) + 0.5])
+                epilogue.append((x, key_))
+        if epilogue:
+            r.count('books_with_cross_sheet_epilogue')
 
     def mk(ov):
         ex = Executor().set_executed_class(class_object=cls)
@@ -213,8 +231,9 @@ def run_book(ctx, bi, ncalls, replay=None, source=None):
     if replay and replay.get('stagesA'):
         cuts = replay['stagesA']
     else:
-        n_st = min(rng.choice([1, 1, 2, 3]), len(ovA)) if len(ovA) >= 2 else 1
-        cuts = sorted(rng.sample(range(1, len(ovA)), n_st - 1)) + [len(ovA)] if ovA else [0]
+        n_pre = len(ovA) - len(epilogue)
+        n_st = min(rng.choice([1, 1, 2, 3]), n_pre) if n_pre >= 2 else 1
+        cuts = (sorted(rng.sample(range(1, n_pre), n_st - 1)) + [n_pre] if n_pre else [0]) + [n_pre + 1 + i_ for i_ in range(len(epilogue))]
     items_A = list(ovA.items())
     stagesA = [dict(items_A[:c_]) for c_ in cuts]
     cur = [0]
@@ -285,12 +304,15 @@ def run_book(ctx, bi, ncalls, replay=None, source=None):
             else:
                 si = rng.randrange(ns)
                 schedule.append(['get_sheet', which, titles[si] if rng.random() < 0.5 else si])
-        for k_ in range(1, len(stagesA)):
+        for k_ in range(1, len(stagesA) - len(epilogue)):
             schedule.insert(rng.randrange(3, max(4, len(schedule))), ['set_cells', 'A', k_])
         # stage ops must come in order
         order_ = [e_ for e_ in schedule if e_[0] == 'set_cells']
         it_ = iter(sorted(order_, key=lambda e_: e_[2]))
         schedule = [next(it_) if e_[0] == 'set_cells' else e_ for e_ in schedule]
+        for i_, (x, key_) in enumerate(epilogue):
+            k_ = len(stagesA) - len(epilogue) + i_
+            schedule += [['get_sheet', 'A', x], ['set_cells', 'A', k_], ['get_sheet', 'A', titles[x]], ['get_cell', 'A', key_[0], wbspec.a1(key_[1], key_[2]), 0], ['get_sheet', 'A', x]]
     case0['schedule'] = schedule
     for entry in schedule:
         which = entry[1]
